@@ -188,7 +188,7 @@ class TrainerProp(core.Prop):
         for bad in bads:
             try:
                 PlainMulti(sim=manager, policies={"p": CountingPolicy(0, [], **good), "q": CountingPolicy(1, [], **bad)},
-                           policy_mapping_fn=lambda a: "q" if a == "a1" else "p")
+                           policy_mapping_fn=lambda a: "q" if a == sim.ids[1] else "p")
                 rep.runtime_failure("trainer constructor accepted a policy whose spaces differ from its agent's",
                                     {"bad": str(bad)})
             except AssertionError:
